@@ -111,13 +111,19 @@ theorem RowLe.refl (r) : RowLe r r := by simp [RowLe]
 theorem RowLe.trans {a b c : Row} (h1 : RowLe a b) (h2 : RowLe b c) : RowLe a c := by
   unfold RowLe at *; refine ⟨fun h => h2.1 (h1.1 h), fun h => h2.2.1 (h1.2.1 h), fun h => h2.2.2.1 (h1.2.2.1 h), ?_⟩; omega
 
-theorem hostRow_le (a : Action) (r : Row) (hg : 1 ≤ a.grant ∧ a.grant ≤ 2) (hr : r.access ≤ 2) : RowLe r (hostRow a r) := by
+/-- the access level an exploit / escalation grants is USER or ROOT (what the loader and the
+generator guarantee for every action of the action space; scans and the no-op grant nothing) -/
+def ActOk (a : Action) : Prop :=
+  (a.kind = .exploit ∨ a.kind = .privesc) → 1 ≤ a.grant ∧ a.grant ≤ 2
+
+theorem hostRow_le (a : Action) (r : Row) (hg : ActOk a) (hr : r.access ≤ 2) : RowLe r (hostRow a r) := by
+  unfold ActOk at hg
   unfold hostRow hostPerform RowLe raiseAccess
   repeat' split
   all_goals simp_all
   all_goals omega
 
-theorem effRow_le (n s a r) (hg : 1 ≤ a.grant ∧ a.grant ≤ 2) (hr : r.access ≤ 2) : RowLe r (effRow n s a r) := by
+theorem effRow_le (n s a r) (hg : ActOk a) (hr : r.access ≤ 2) : RowLe r (effRow n s a r) := by
   unfold effRow
   split
   · split
@@ -133,7 +139,7 @@ theorem effRow_le (n s a r) (hg : 1 ≤ a.grant ∧ a.grant ≤ 2) (hr : r.acces
     · exact h1
 
 /-- C04 (monotone part), one step, every row -/
-theorem stepRow_le (n s a u r) (hg : 1 ≤ a.grant ∧ a.grant ≤ 2) (hr : r.access ≤ 2) : RowLe r (stepRow n s a u r) := by
+theorem stepRow_le (n s a u r) (hg : ActOk a) (hr : r.access ≤ 2) : RowLe r (stepRow n s a u r) := by
   unfold stepRow
   split
   · split
